@@ -91,7 +91,7 @@ def directiveOf (text : String) (line : Nat) : Option Warn.Directive :=
 /-- the directive lines of a file, in source order -/
 def directivesOfText (text : String) : List Warn.Directive :=
   match cFileSource text with
-  | .ok (lls, _, _) => lls.filterMap fun ll => if ll.cat == .cppDirective then directiveOf ll.text ll.start else none
+  | .ok (lls, _, _) => lls.filterMap fun ll => if ll.isDirective then directiveOf ll.text ll.start else none
   | .error _ => []
 
 structure Parsed where
